@@ -1161,7 +1161,27 @@ fn addr_hash(a: &SocketAddr) -> u64 {
     fnv64(a.to_string().as_bytes())
 }
 
+/// Same-instant outputs of one synchronous call (e.g. several flows expiring on one timer
+/// tick) come out in the iteration order of a randomly keyed hash map inside the endpoint:
+/// runs of events of the same kind at the same instant are put in a canonical order.
+pub fn canonical(tr: &[Event]) -> Vec<Event> {
+    let mut v = tr.to_vec();
+    let mut i = 0;
+    while i < v.len() {
+        let mut j = i + 1;
+        while j < v.len() && v[j].t_us == v[i].t_us && v[j].kind == v[i].kind {
+            j += 1;
+        }
+        if j - i > 1 {
+            v[i..j].sort_by_key(|e| (e.obj, e.a, e.b));
+        }
+        i = j;
+    }
+    v
+}
+
 pub fn trace_hash(tr: &[Event]) -> u64 {
+    let tr = &canonical(tr);
     let mut h = 0xcbf2_9ce4_8422_2325u64;
     for e in tr {
         h = fnv64_from(h, &e.t_us.to_le_bytes());
@@ -1226,7 +1246,7 @@ pub fn uninstall() -> Option<Inner> {
     let inner = W.with(|w| w.borrow_mut().take());
     if KEEP_TRACE.load(std::sync::atomic::Ordering::Relaxed) {
         if let Some(i) = &inner {
-            *KEPT.lock().unwrap() = i.trace.clone();
+            *KEPT.lock().unwrap() = canonical(&i.trace);
         }
     }
     inner
